@@ -47,6 +47,37 @@ Theorem C11_next_request_unaffected :
 Proof. exact refused_then_next. Qed.
 Print Assumptions C11_next_request_unaffected.
 
+(* "parameter value (missing, empty, negative, overflowing, non-numeric)": the binder refuses exactly the requests
+   whose bid is missing or empty or whose exp is missing or not a base-10 int64 (sign allowed, digits only, in
+   range), and a refused binding is answered 422 with nothing changed *)
+Theorem C11_unbindable_params :
+  forall r,
+    bind_params r = None <->
+    r_bid r = None \/ r_bid r = Some 0%N \/ r_exp r = None \/ (exists raw, r_exp r = Some raw /\ parse_int64 raw = None).
+Proof. exact bind_params_none_iff. Qed.
+Print Assumptions C11_unbindable_params.
+
+Theorem C11_unbound_params_422 :
+  forall cfg s r c,
+    validate_header (clock s) (cfg_host cfg) (cfg_secret cfg) (r_cred r) = Principal c ->
+    r_route r = RDeny \/ r_route r = RAllow -> bind_params r = None ->
+    handle true cfg s r = (s, Resp 422 BError).
+Proof. exact unbound_params_422. Qed.
+Print Assumptions C11_unbound_params_422.
+
+Theorem C11_bound_exp_is_int64 :
+  forall r b e, bind_params r = Some (b, e) -> b <> 0%N /\ (-9223372036854775808 <= e <= 9223372036854775807)%Z.
+Proof. exact bound_params_range. Qed.
+Print Assumptions C11_bound_exp_is_int64.
+
+(* "signed or not": no principal, no handler - an error status on every route and nothing changed *)
+Theorem C11_unauthenticated_refused :
+  forall cfg s r,
+    (forall c, validate_header (clock s) (cfg_host cfg) (cfg_secret cfg) (r_cred r) <> Principal c) ->
+    refusal (snd (handle true cfg s r)) /\ fst (handle true cfg s r) = s.
+Proof. exact unauthenticated_refused. Qed.
+Print Assumptions C11_unauthenticated_refused.
+
 (* the fault that F07 removes, kept as a checked record: before the nil checks a correctly signed token
    without exp faulted every endpoint, and one with exp but without iat faulted the session handler after the
    booking id had already been written to the allow list *)
@@ -73,9 +104,19 @@ Example C11_witness :
   valid_request f07_cfg (init 10) good.
 Proof.
   cbn zeta. do 5 (split; [vm_compute; reflexivity|]).
-  exists (mkbearer SWell HS256 true (f07_claims (Some 50%Z) (Some 5%Z) (Some 5%Z))).
+  exists (mkbearer SWell HS256 [] (Some 7%N) (f07_claims (Some 50%Z) (Some 5%Z) (Some 5%Z))).
   split; [reflexivity|]. split; [|split; [reflexivity|split; [intros H; discriminate H|reflexivity]]].
   unfold good_bearer. cbn. do 3 (split; [reflexivity|]).
   split; [exists 50%Z, 5%Z, 5%Z; repeat split; try reflexivity; lia|].
   split; [left; reflexivity|]. repeat split; discriminate.
 Qed.
+
+(* non-vacuity of the binder theorems: the spread of raw exp values *)
+Example C11_witness_params :
+  map parse_int64 [""; "+"; "-"; "12abc"; "1e12"; " 5"; "0x10"; "9223372036854775808"; "-9223372036854775809"]
+    = [None; None; None; None; None; None; None; None; None] /\
+  map parse_int64 ["0"; "-0"; "+0099"; "-5"; "9223372036854775807"; "-9223372036854775808"]
+    = [Some 0; Some 0; Some 99; Some (-5); Some 9223372036854775807; Some (-9223372036854775808)]%Z /\
+  handle true f07_cfg (init 10) (mkreq RDeny (r_cred (f07_req RDeny (Some 50%Z) (Some 5%Z) (Some 5%Z))) (Some 1%N) (Some "1e12"))
+    = (init 10, Resp 422 BError).
+Proof. vm_compute. repeat split; reflexivity. Qed.
